@@ -1,5 +1,6 @@
+use std::collections::HashSet;
 use std::io::Cursor;
-use ebml_iterable_specification::{EbmlSpecification, EbmlTag};
+use ebml_iterable_specification::{EbmlSpecification, EbmlTag, Master};
 use futures::{AsyncRead, AsyncReadExt, Stream};
 use crate::error::TagIteratorError;
 use crate::TagIterator;
@@ -15,7 +16,10 @@ pub struct TagIteratorAsync<R: AsyncRead + Unpin, TSpec>
 {
     source: R,
     buffer: Box<[u8]>,
-    iterator: TagIterator<Cursor<Vec<u8>>, TSpec>
+    iterator: TagIterator<Cursor<Vec<u8>>, TSpec>,
+    tag_ids_to_buffer: HashSet<u64>,
+    source_exhausted: bool,
+    last_emitted_tag_offset: usize,
 }
 
 impl<R: AsyncRead + Unpin, TSpec> TagIteratorAsync<R, TSpec>
@@ -25,23 +29,88 @@ impl<R: AsyncRead + Unpin, TSpec> TagIteratorAsync<R, TSpec>
 
     pub fn new(source: R, tags_to_buffer: &[TSpec]) -> Self {
         let buffer = vec![0u8; 1024 * 64];
+
+        // "Master" tags are buffered here rather than by the inner iterator, so that they can be completed across several reads of the source
+        let mut iterator = TagIterator::new(Cursor::new(Vec::new()), &[]);
+        // The inner iterator only sees the data received so far - reaching the end of that is not the end of the source
+        iterator.emit_master_end_when_eof(false);
+
         Self {
             source,
             buffer: buffer.into_boxed_slice(), 
-            iterator: TagIterator::new(Cursor::new(Vec::new()), tags_to_buffer)
+            iterator,
+            tag_ids_to_buffer: tags_to_buffer.iter().map(|tag| tag.get_id()).collect(),
+            source_exhausted: false,
+            last_emitted_tag_offset: 0,
         }
     }
 
-    pub async fn next(&mut self) -> Option<Result<TSpec, TagIteratorError>> {
-        match self.source.read(&mut self.buffer).await {
-            Ok(len) => {
-                self.iterator.get_mut().get_mut().append(&mut self.buffer[..len].to_vec());
-                self.iterator.next()
-            },
-            Err(e) => {
-                Some(Err(TagIteratorError::ReadError { source: e }))
+    ///
+    /// Gets the next tag from the inner iterator, reading more data from the source whenever the data received so far runs out.
+    ///
+    async fn next_unbuffered(&mut self) -> Option<Result<TSpec, TagIteratorError>> {
+        loop {
+            match self.iterator.next() {
+                // The inner iterator ran out of data at the end of a tag (`None`) or in the middle of one, but the source might have more
+                None | Some(Err(TagIteratorError::UnexpectedEOF { .. })) if !self.source_exhausted => {
+                    match self.source.read(&mut self.buffer).await {
+                        Ok(0) => {
+                            self.source_exhausted = true;
+                            self.iterator.emit_master_end_when_eof(true);
+                        },
+                        Ok(len) => {
+                            self.iterator.get_mut().get_mut().extend_from_slice(&self.buffer[..len]);
+                        },
+                        Err(e) => {
+                            return Some(Err(TagIteratorError::ReadError { source: e }));
+                        },
+                    }
+                },
+                other => return other,
             }
-        } 
+        }
+    }
+
+    ///
+    /// Collects all tags up to the end of the master that was just started and rolls them up into a [`Master::Full`] variant.
+    ///
+    async fn buffer_master(&mut self, tag_id: u64) -> Result<TSpec, TagIteratorError> {
+        let tag_start = self.last_emitted_tag_offset;
+        let mut children = Vec::new();
+        let mut nested_depth = 0;
+        loop {
+            match self.next_unbuffered().await {
+                Some(Ok(tag)) => {
+                    if tag.get_id() == tag_id {
+                        match tag.as_master() {
+                            Some(Master::Start) => nested_depth += 1,
+                            Some(Master::End) if nested_depth == 0 => break,
+                            Some(Master::End) => nested_depth -= 1,
+                            _ => {},
+                        }
+                    }
+                    children.push(tag);
+                },
+                Some(Err(e)) => return Err(e),
+                None => return Err(TagIteratorError::UnexpectedEOF { tag_start, tag_id: Some(tag_id), tag_size: None, partial_data: None }),
+            }
+        }
+
+        Ok(TagIterator::<Cursor<Vec<u8>>, TSpec>::roll_up_children(tag_id, children))
+    }
+
+    pub async fn next(&mut self) -> Option<Result<TSpec, TagIteratorError>> {
+        let tag = match self.next_unbuffered().await? {
+            Ok(tag) => tag,
+            Err(e) => return Some(Err(e)),
+        };
+        self.last_emitted_tag_offset = self.iterator.last_emitted_tag_offset();
+
+        if matches!(tag.as_master(), Some(Master::Start)) && self.tag_ids_to_buffer.contains(&tag.get_id()) {
+            return Some(self.buffer_master(tag.get_id()).await);
+        }
+
+        Some(Ok(tag))
     }
 
     pub fn into_stream(self) -> impl Stream<Item=Result<TSpec, TagIteratorError>> {
@@ -52,6 +121,6 @@ impl<R: AsyncRead + Unpin, TSpec> TagIteratorAsync<R, TSpec>
     }
 
     pub fn last_emitted_tag_offset(&self) -> usize {
-        self.iterator.last_emitted_tag_offset()
+        self.last_emitted_tag_offset
     }
 }
